@@ -218,20 +218,23 @@ Definition conv_autorestart (v : gval) : result autorestart :=
   | _ => Err ETypeError
   end.
 
-(* datatypes.SIGNUMS is built from every attribute of `signal` whose name
-   starts with SIG, which includes SIG_DFL SIG_IGN SIG_BLOCK SIG_UNBLOCK
-   SIG_SETMASK (0 1 0 1 2): those numbers and names pass the check *)
+(* datatypes.signal_number: a number must be in SIGNUMS (generated:
+   signal_numbers, by the filter the source applies to dir(signal)); a name
+   is resolved with getattr(signal, 'SIG' + name), rejected when it carries
+   the guarded prefix (generated: signal_name_guard, "SIG_" - SIG_DFL, SIG_IGN,
+   SIG_BLOCK ... are not signals), and its number must be in SIGNUMS too *)
 Definition conv_signal (v : gval) : result Z :=
   match v with
   | GStr s =>
-    let signums := map snd signal_names in
     match parse_int s with
-    | Some n => if existsb (Z.eqb n) signums then Ok n else Err ESignal
+    | Some n => if existsb (Z.eqb n) signal_numbers then Ok n else Err ESignal
     | None =>
       let name := upper (strip s) in
       let name := if prefix "SIG" name then name else "SIG" ++ name in
       match lookup name signal_names with
-      | Some n => Ok n
+      | Some n =>
+        if match signal_name_guard with Some g => prefix g name | None => false end then Err ESignal
+        else if existsb (Z.eqb n) signal_numbers then Ok n else Err ESignal
       | None => Err ESignal
       end
     end
@@ -411,7 +414,12 @@ Fixpoint kv_pairs (fuel : nat) (toks : list string) (d : list (string * string))
     | [] => Ok d
     | k :: eq :: v :: rest =>
       if String.eqb eq "=" then
-        kv_pairs f (match rest with [] => [] | _ :: r => r end) (dict_set d k (strip_chars is_quote v))
+        (* the token after a pair must be a comma (a trailing comma is fine) *)
+        match rest with
+        | [] => Ok (dict_set d k (strip_chars is_quote v))
+        | sep :: r => if String.eqb sep "," then kv_pairs f r (dict_set d k (strip_chars is_quote v))
+                      else Err EEnvSyntax
+        end
       else Err EEnvSyntax
     | _ => Err EEnvSyntax
     end
